@@ -11,7 +11,7 @@
 //!      - `intent`    `Documented` (only declared, correctly typed accesses; optional attributes / tags guarded
 //!                    the documented way — such a policy MUST be accepted by strict validation),
 //!                    `NearMiss` (one access guarded the wrong way: `has` under `||`, in the other `if` branch, on a
-//!                    different expression or attribute, after `!`, or after the access),
+//!                    different expression or attribute, after `!`, after the access, or next to an always-true operand of `||`),
 //!                    `StrictOnly` (well-typed for the permissive checker but using something strict mode forbids:
 //!                    non-literal constructor argument, mixed entity types in `if`/set/`==`, empty set literal),
 //!                    `IllTyped` (an operand of the wrong type, undeclared attribute, unguarded tag, …),
@@ -708,7 +708,18 @@ impl<'a> Cx<'a> {
             self.near_missed = true;
             self.idioms.insert("near-miss");
             let conj = gs.join(" && ");
-            return match r.below(9) {
+            // an operand that the typechecker types True in the policy's target environment
+            let always = {
+                let ptype = self.p_ty.clone().unwrap_or_else(|| "User".into());
+                let rtype = self.r_ty.clone().unwrap_or_else(|| ptype.clone());
+                match r.below(3) { 0 => "true".to_string(), 1 => format!("principal is {ptype}"), _ => format!("resource is {rtype}") }
+            };
+            return match r.below(13) {
+                // `has` to the left / right of an always-true operand of `||`: the disjunction says nothing about the attribute
+                9 => format!("((({conj}) || {always}) && ({atom}))"),
+                10 => format!("(({always} || ({conj})) && ({atom}))"),
+                11 => format!("(if (({conj}) || {always}) then ({atom}) else false)"),
+                12 => format!("(((({conj}) || {always}) && true) && ({atom}))"),
                 0 => format!("(({conj}) || ({atom}))"),
                 1 => format!("(if {conj} then true else ({atom}))"),
                 2 => format!("(!({conj}) && ({atom}))"),
